@@ -154,6 +154,25 @@ def run(cmd, timeout, cwd=None, env=None):
     return p.returncode, p.stdout
 
 
+def library_crash(out):
+    """If a harness died from a Go panic raised on a goroutine running library code (not harness code), returns a short
+    description, else None. Such a crash is a verdict about the code (it takes the application down); a panic in the
+    harness' own code is an infrastructure failure."""
+    i = out.find("panic: ")
+    if i < 0:
+        i = out.find("fatal error: ")
+    if i < 0:
+        return None
+    block = out[i:].split("\n\ngoroutine ")[0:2]
+    first = "\n".join(block)
+    frames = [l.strip() for l in first.splitlines() if l.startswith("github.com/") or l.startswith("main.") or l.startswith("verifharness")]
+    lib = [f for f in frames if f.startswith("github.com/enbility/ship-go/")]
+    if not lib:
+        return None
+    msg = out[i:].splitlines()[0][:160]
+    return "%s in %s" % (msg, lib[0].split("(")[0] if "(" in lib[0] else lib[0])
+
+
 # ------------------------------------------------------------------ known findings
 
 def load_known():
